@@ -27,6 +27,8 @@ from .value import Foreign, RealValue, Value, from_value, to_value, unwrap_forei
 # Runtime
 
 CTX_NAME = '__ctx__'
+COPY_NAME = '__fpy_copy'
+"""namespace symbol bound to `to_value`, which rebuilds containers"""
 REAL_NAME = '__fpy_real'
 """namespace symbol bound to the real context ``REAL``"""
 
@@ -539,9 +541,19 @@ _NARY_TABLE: dict[type[NaryOp], object] = {
 ###########################################################
 # Eval namespace
 
+def _has_list(x) -> bool:
+    match x:
+        case list():
+            return True
+        case tuple():
+            return any(_has_list(v) for v in x)
+        case _:
+            return False
+
 def make_namespace() -> dict[str, object]:
     # add special symbols to namespace
     namespace = {
+        COPY_NAME: to_value,
         '__fpy_call': _eval_call,
         '__fpy_fraction': Fraction,
         '__fpy_negzero': _neg_zero,
@@ -586,6 +598,8 @@ class BytecodeCompiler(Visitor):
     env: ForeignEnv
     gensym: Gensym
     foreign_vals: dict[str, object]
+    captured_lists: dict[str, str]
+    """free variable holding a list -> namespace symbol of the captured value"""
 
     def __init__(self, func: FuncDef, env: ForeignEnv):
         self.func = func
@@ -594,8 +608,22 @@ class BytecodeCompiler(Visitor):
         # otherwise return that very name and shadow a source variable
         self.gensym = Gensym(reserved=DefineUse.analyze(func).names())
         self.foreign_vals = {}
+        self.captured_lists = {}
 
     def compile(self):
+        # convert the free variables; one that holds a list is kept under a
+        # fresh symbol and copied into a local at every activation (see
+        # `_visit_function`), so a write to it cannot leak into a later call
+        free_vals: dict[str, object] = {}
+        for var in self.func.free_vars:
+            name = str(var)
+            val = to_value(self.env[name])
+            if _has_list(val):
+                sym = str(self.gensym.fresh('__fpy_captured'))
+                self.captured_lists[name] = sym
+                free_vals[sym] = val
+            else:
+                free_vals[name] = val
         # compile the function to a Python AST
         ast = self._visit_function(self.func, None)
         # print(pyast.unparse(ast))
@@ -607,9 +635,7 @@ class BytecodeCompiler(Visitor):
         # inject runtime symbols
         namespace = make_namespace()
         # add free variables to the namespace
-        for var in self.func.free_vars:
-            name = str(var)
-            namespace[name] = to_value(self.env[name])
+        namespace.update(free_vals)
         # add foreign values to the namespace
         namespace.update(self.foreign_vals)
         # return the function object
@@ -1134,6 +1160,23 @@ class BytecodeCompiler(Visitor):
 
         body = self._visit_block(func.body, None)
         attrs = self._location_to_attributes(func.loc)
+
+        # <name> = __fpy_copy(<captured>): a fresh copy per activation
+        copies: list[pyast.stmt] = [
+            pyast.Assign(
+                targets=[pyast.Name(id=name, ctx=pyast.Store(), **attrs)],
+                value=pyast.Call(
+                    func=pyast.Name(id=COPY_NAME, ctx=pyast.Load(), **attrs),
+                    args=[pyast.Name(id=sym, ctx=pyast.Load(), **attrs)],
+                    keywords=[],
+                    **attrs
+                ),
+                type_comment=None,
+                **attrs
+            )
+            for name, sym in self.captured_lists.items()
+        ]
+        body = copies + body
 
         ctx_arg = pyast.arg(arg=CTX_NAME, annotation=None, type_comment=None, **attrs)
         py_args = pyast.arguments(
